@@ -62,18 +62,36 @@ def _case(repo, it, S, spec):
         it, GENOME, window[0], window[1], alphabet="NT_EXTENDED")
     F = it.enum("CDSFrame")
     nm = {0: "ZERO", 1: "ONE", 2: "TWO"}
+    # the name column carries the symbol as it is (columns are tab separated: blanks inside a name are legal and kept)
+    the_name = "the_name" if sn == "PLUS" else "heat shock protein 70"
     try:
         if kind == "tx":
-            kw = dict(parent_or_seq_chunk_parent=parent, sequence_name="chr1", transcript_symbol="the_name")
+            kw = dict(parent_or_seq_chunk_parent=parent, sequence_name="chr1", transcript_symbol=the_name)
             if cds:
                 fr = consistent_frames(cds, sn, 0)
                 obj = mk_transcript(it, exons, S[sn], list(cds), [F[nm[x]] for x in fr], **kw)
             else:
                 obj = mk_transcript(it, exons, S[sn], **kw)
         else:
-            obj = mk_feature(it, exons, S[sn], parent_or_seq_chunk_parent=parent, sequence_name="chr1", feature_name="the_name")
+            obj = mk_feature(it, exons, S[sn], parent_or_seq_chunk_parent=parent, sequence_name="chr1", feature_name=the_name)
     except Raised as ex:
         return 1, [("construct", f"{kind} {exons} cds={cds} window={window}: {ex.exc_name}", f"{cls}.__init__")]
+    # the same interval built through the alternate constructor (from_location / from_chunk_relative_location) exports the
+    # same lines; only when the whole interval lies on the parent (a cut interval is legitimately a different object)
+    alt = None
+    adjacent = any(a[1] == b[0] for a, b in zip(exons, exons[1:]))  # (lifting a location merges blocks with a 0-bp gap)
+    if not adjacent and (window is None or (window[0] <= exons[0][0] and exons[-1][1] <= window[1])):
+        loc = obj.fields["_location"]
+        ctor = "from_location" if window is None else "from_chunk_relative_location"
+        kwa = dict(sequence_name="chr1")
+        if kind == "tx":
+            kwa.update(transcript_symbol=the_name, cds=obj.fields.get("cds"))
+        else:
+            kwa.update(feature_name=the_name)
+        ka, alt = run(it, repo.fn(f"{cls}.{ctor}"), [loc], kwa, None)
+        if ka != "ok":
+            out.append((f"{ctor}", f"{kind} {exons} {sn} cds={cds} window={window}: {ctor}(own location) raises {alt}", f"{cls}.{ctor}"))
+            alt = None
     modes = [True] + ([False] if window is not None else [])
     first_text = {}
     # each mode is exported again after the others on the same object: a line is a function of the object and the mode, not
@@ -109,6 +127,16 @@ def _case(repo, it, S, spec):
             out.append((key, f"{desc}: str(BED12) is not plain text", "io.bed.bed:BED12.__str__"))
             continue
         first_text[chrom_mode] = text
+        if alt is not None:
+            n += 1
+            k2, v2 = run(it, f, [], {"chromosome_relative_coordinates": chrom_mode}, alt)
+            try:
+                text2 = it.builtin("str", [v2], {}, None, 0) if k2 == "ok" else f"raise:{v2}"
+            except Raised as ex:
+                text2 = f"raise:{ex.exc_name}"
+            if text2 != text:
+                out.append((key + " alternate constructor", f"{desc}: the twin built by {ctor}(location) exports {text2!r}; the directly "
+                            f"constructed object exports {text!r}", f"{cls}.{ctor}"))
         d, why = decode(text)
         if d is None:
             out.append((key + " format", f"{desc}: {text!r} is not a 12-column BED line ({why})", "io.bed.bed:BED12.__str__"))
@@ -125,7 +153,7 @@ def _case(repo, it, S, spec):
         if d["thick"] != want_thick:
             out.append((key + " thick", f"{desc}: thickStart/End {d['thick']}; CDS bounds are {want_thick}", f.qual))
         sym = {"PLUS": "+", "MINUS": "-"}[sn]
-        if d["strand"] != sym or d["name"] != "the_name" or d["chrom"] != "chr1" or d["score"] != "0" or d["rgb"] != "0,0,0":
+        if d["strand"] != sym or d["name"] != the_name or d["chrom"] != "chr1" or d["score"] != "0" or d["rgb"] != "0,0,0":
             out.append((key + " columns", f"{desc}: columns chrom/name/score/strand/rgb = {d['chrom']},{d['name']},{d['score']},{d['strand']},{d['rgb']}", "io.bed.bed:BED12.__str__"))
     return n, out
 
